@@ -219,6 +219,7 @@ class Interp:
         self.trace = []            # effect trace (file writes, callbacks ...)
         self.watches = {}          # qualname -> {local name: [values assigned, in order]}
         self.install_default_summaries()
+        self.summaries = _Summaries(self, self.summaries)
         self.steps = 0
         self.max_steps = int(os.environ.get('PVC_MAX_STEPS', '4000000'))
 
@@ -402,8 +403,14 @@ class Interp:
     def get_function(self, spec):
         """'pymoto.common.domain:DomainDefinition.get_elemnumber' -> Closure (or ClassInfo for a class)"""
         modname, _, path = spec.partition(':')
-        m = self.load(modname)
+        lost = Unsupported(f'contract anchor lost: {spec} is not defined in the current sources')
+        try:
+            m = self.load(modname)
+        except (FileNotFoundError, ModuleNotFoundError):
+            raise lost
         parts = path.split('.')
+        if parts[0] not in m.globals:
+            raise lost
         v = m.globals[parts[0]]
         for p in parts[1:]:
             if isinstance(v, ClassInfo):
@@ -411,11 +418,11 @@ class Interp:
                 if f is None:
                     pr = v.find_prop(p)
                     if pr is None:
-                        raise KeyError(spec)
+                        raise lost
                     f = pr
                 v = f[1] if isinstance(f, tuple) else f
             else:
-                raise KeyError(spec)
+                raise lost
         return v
 
     def new_object(self, spec_or_cls, **fields):
@@ -1683,6 +1690,28 @@ def _ite_val(c, a, b):
     if not is_sym(c):
         return a if c else b
     return V.ite(c, a, b)
+
+
+class _Summaries(dict):
+    """callee contracts installed by a harness.  A contract for a function the current sources do not define (renamed, removed) has lost its
+    anchor: installing it puts the harness out of reach instead of silently executing the renamed body without its contract."""
+    def __init__(self, it, initial):
+        super().__init__(initial)
+        self.it = it
+
+    def __setitem__(self, key, fn):
+        if isinstance(key, str) and ':' in key:
+            self.it.get_function(key)
+        super().__setitem__(key, fn)
+
+    def setdefault(self, key, fn=None):
+        if key not in self:
+            self[key] = fn
+        return self[key]
+
+    def update(self, *a, **k):
+        for key, fn in dict(*a, **k).items():
+            self[key] = fn
 
 
 class LoopSpec:
